@@ -1,6 +1,8 @@
 import TexelVerif.Chess.SpecLemmas
 import TexelVerif.Chess.KingRay
 import TexelVerif.Chess.TexelGenEvade
+import TexelVerif.Chess.TexelGenGivesCastle
+import TexelVerif.Chess.TexelGenCC4
 /-!
 # C01 — generated legal moves are exactly the legal moves of chess
 
@@ -189,6 +191,97 @@ theorem texel_kingsApart_of_check (p : Pos) (k : Sq) (h : Texel.kingsApartB p k 
 
 /-- the decidable form of the hypotheses, evaluated by the driver on every tested position -/
 theorem texel_genWF_of_check (p : Pos) (k : Sq) (h : Texel.genWFb p k = true) : Texel.GenWF p k := Texel.genWF_of_b p k h
+
+/-! ## `MoveGen::givesCheck` (moveGen.cpp:458-571; model `Texel.givesCheck`, proof `Chess/TexelGenGives*.lean`)
+
+Hypotheses `Texel.GcWF p ok`: piece codes 0..12; the side **not** to move has its king on `ok = pos.getKingSq(!wtm)` and
+nowhere else; that king is not attacked (`readFEN` rejects such positions, `makeMove` of a legal move never produces
+one); the en-passant square, if any, is empty, lies on the mover's sixth rank and has the double-stepped pawn behind it.
+All evaluated by the driver on every tested position (`Texel.gcWFb`). -/
+
+/-- **`MoveGen::givesCheck` for every pseudo-legal move** that does not put the mover's king next to the opponent's king:
+    the verdict equals "the opponent is in check on the board after the move".  Covers the first `switch` (direct check by
+    queen/rook/bishop along an open line, pawn, knight), the discovered check through the from-square (`d2 ≠ d1`: the
+    piece leaves the line), the promoted piece attacking through the vacated from-square, castling (the rook, along the
+    back rank through the king's home square or up its file) and en passant (lines through the captured pawn's square,
+    and the rank through both vacated squares). -/
+theorem texel_givesCheck_eq (p : Pos) (ok : Sq) (h : Texel.GcWF p ok) (m : Mv) (hp : pseudo p m = true)
+    (hkk : kind p.b[m.f] = 1 → Texel.kingGeom ok m.t = false) :
+    Texel.givesCheck p ok m = inCheck (apply p m).b (!p.wtm) := Texel.givesCheck_eq p ok h m hp hkk
+
+/-- **`MoveGen::givesCheck` for every legal move** (a legal king move never ends next to the other king) -/
+theorem texel_givesCheck_legal (p : Pos) (k ok : Sq) (h1 : Texel.GenWF p k) (h2 : Texel.GcWF p ok) (m : Mv)
+    (hl : legalB p m = true) : Texel.givesCheck p ok m = inCheck (apply p m).b (!p.wtm) :=
+  Texel.givesCheck_legal p k ok h1 h2 m hl
+
+/-- the side condition on king moves cannot be dropped: Ka1-b1 next to a king on c2 is pseudo-legal, the specification
+    counts the black king as attacked afterwards, `givesCheck` (rightly, for the engine never plays that move) says no -/
+theorem texel_givesCheck_kings_adjacent_witness :
+    let p : Pos := { b := (Vector.replicate 64 0 |>.set 0 WKING |>.set 10 BKING), wtm := true, castle := 0, ep := none, hmc := 0, fmc := 1 }
+    let m : Mv := { f := sq 0, t := sq 1, promo := 0 }
+    Texel.gcWFb p (sq 10) = true ∧ pseudo p m = true ∧ legalB p m = false ∧
+    Texel.givesCheck p (sq 10) m = false ∧ inCheck (apply p m).b (!p.wtm) = true := by decide
+
+/-- the decidable form of the `givesCheck` hypotheses, evaluated by the driver on every tested position -/
+theorem texel_gcWF_of_check (p : Pos) (ok : Sq) (h : Texel.gcWFb p ok = true) : Texel.GcWF p ok := Texel.gcWF_of_b p ok h
+
+/-! ## `MoveGen::pseudoLegalCapturesAndChecks` (moveGen.cpp:257-384; model `Texel.pseudoLegalCapturesAndChecks`)
+
+What the C++ generates, precisely (`Texel.CCGen`, with `D = discovered`: every square the opponent's king sees along a
+rook line if some own rook or queen would see the king with the first blockers removed, likewise for bishop lines):
+queen / rook / bishop / knight — all moves of a piece on `D`, else captures and moves onto `kRookAtk` / `kBishAtk` /
+`kKnightAtk` as fits the piece; king — all steps if on `D`, else captures, and every pseudo-legal castling move; pawns
+(promotion piece queen or knight) — captures incl. en passant, every push of a pawn on `D` or on its seventh rank, else
+pushes onto a square from which the pawn attacks the king.  The list is a superset of "captures, promotions and checks":
+a piece on `D` that moves along its line, or castling without check, is generated as well. -/
+
+/-- **exact characterisation**: the list is the set of pseudo-legal moves satisfying `CCGen` -/
+theorem texel_capturesAndChecks_iff (p : Pos) (k ok : Sq) (h : Texel.GenWF p k) (m : Mv) :
+    m ∈ Texel.pseudoLegalCapturesAndChecks p k ok ↔ (pseudo p m = true ∧ Texel.CCGen p ok m) := Texel.mem_cc_iff p k ok h m
+
+/-- **soundness**: every generated move is pseudo-legal -/
+theorem texel_capturesAndChecks_sound (p : Pos) (k ok : Sq) (h : Texel.GenWF p k) (m : Mv)
+    (hm : m ∈ Texel.pseudoLegalCapturesAndChecks p k ok) : pseudo p m = true := Texel.cc_sound p k ok h m hm
+
+/-- `discovered` contains every square from which a move uncovers a check (second block of `givesCheck`) -/
+theorem texel_discovered_complete (b : Board) (hv : Texel.ValidB b) (w : Bool) (ok : Sq) (hK : Texel.KingAt b (!w) ok)
+    (f t : Sq) (h : Texel.gcDisc b w ok f t = true) : Texel.tst (Texel.ccDiscovered b w ok) f = true :=
+  Texel.disc_mem b hv w ok hK f t h
+
+/-- **completeness**: every pseudo-legal move that captures (en passant included), promotes, or gives check — direct,
+    discovered, by the castling rook or through an en-passant capture — is generated, provided the promotion piece (if
+    any) is a queen or a knight and a king move does not end next to the opponent's king -/
+theorem texel_capturesAndChecks_complete (p : Pos) (k ok : Sq) (h1 : Texel.GenWF p k) (h2 : Texel.GcWF p ok) (m : Mv)
+    (hp : pseudo p m = true) (hkk : kind p.b[m.f] = 1 → Texel.kingGeom ok m.t = false) (hq : qnPromo m = true)
+    (hc : isCaptureMv p m = true ∨ m.promo ≠ 0 ∨ givesCheckSpec p m = true) :
+    m ∈ Texel.pseudoLegalCapturesAndChecks p k ok := Texel.cc_complete p k ok h1 h2 m hp hkk hq hc
+
+/-- …in particular no legal move of the class the acceptor checks (`ccClass`: capture or check, promotion piece queen or
+    knight) and no legal promotion to queen or knight is omitted -/
+theorem texel_capturesAndChecks_complete_legal (p : Pos) (k ok : Sq) (h1 : Texel.GenWF p k) (h2 : Texel.GcWF p ok) (m : Mv)
+    (hl : legalB p m = true) (hc : ccClass p m = true ∨ (m.promo ≠ 0 ∧ qnPromo m = true)) :
+    m ∈ Texel.pseudoLegalCapturesAndChecks p k ok := by
+  have hp : pseudo p m = true := (legal_safe p m hl).1
+  have hkk := Texel.legal_king_apart p k ok h1 h2 m hl
+  rcases hc with hc | ⟨h0, hq⟩
+  · unfold ccClass at hc
+    simp only [Bool.and_eq_true, Bool.or_eq_true] at hc
+    refine Texel.cc_complete p k ok h1 h2 m hp hkk hc.2 ?_
+    rcases hc.1 with h | h
+    · exact Or.inl h
+    · exact Or.inr (Or.inr h)
+  · exact Texel.cc_complete p k ok h1 h2 m hp hkk hq (Or.inr (Or.inl h0))
+
+/-- the list is a proper superset of its class: with Ke1, Rh1 against Ka8, castling O-O is generated although it neither
+    captures nor gives check (the castling block of the C++ is unconditional) -/
+theorem texel_capturesAndChecks_superset_witness :
+    let p : Pos := { b := (Vector.replicate 64 0 |>.set 4 WKING |>.set 7 WROOK |>.set 56 BKING), wtm := true, castle := 2, ep := none, hmc := 0, fmc := 1 }
+    let m : Mv := { f := sq 4, t := sq 6, promo := 0 }
+    m ∈ Texel.pseudoLegalCapturesAndChecks p (sq 4) (sq 56) ∧ isCaptureMv p m = false ∧ givesCheckSpec p m = false := by decide
+
+-- non-vacuity of the `givesCheck` hypotheses: a bare-kings position
+example : Texel.GcWF { b := (Vector.replicate 64 0 |>.set 0 WKING |>.set 63 BKING), wtm := true, castle := 0, ep := none, hmc := 0, fmc := 1 } (sq 63) :=
+  Texel.gcWF_of_b _ _ (by decide)
 
 -- non-vacuity of the generator hypotheses: a bare-kings position
 example : Texel.GenWF { b := (Vector.replicate 64 0 |>.set 0 WKING |>.set 63 BKING), wtm := true, castle := 0, ep := none, hmc := 0, fmc := 1 } (sq 0) :=
